@@ -132,6 +132,13 @@ func genDoc(r *rand.Rand) Doc {
 	prof.PCall = []float64{0.1, 0.3}[r.IntN(2)]
 	g := gen.Generate(r, prof)
 	p := renameVars(r, g.Prog)
+	if len(p.Vars) > 0 && r.IntN(8) == 0 {
+		// a name declared twice (an error diagnostic; navigation goes to the first declaration)
+		d := p.Vars[r.IntN(len(p.Vars))]
+		d.Fn, d.Args = "", nil
+		d.Type = []string{"account", "asset", "number", "monetary", "portion", "string"}[r.IntN(6)]
+		p.Vars = append(p.Vars, d)
+	}
 	pr := p.Print()
 	return Doc{Text: pr.Text, Spans: pr.Spans, Valid: true}
 }
